@@ -72,6 +72,9 @@ func (fr *Frame) exec(in ssa.Instruction) {
 	case *ssa.MakeChan:
 		r := fr.newRef()
 		fr.set(i, &Val{T: r, S: SInt, Typ: i.Type()})
+		// the capacity is a fixed attribute of the channel (cap(ch) in contracts)
+		U.declFun("chan.cap", "(declare-fun chan.cap (Int) Int)")
+		vc.assume(fr.reach, eq(sx("chan.cap", r), fr.val(i.Size).T))
 		fr.onMakeChan(i, r)
 	case *ssa.MakeInterface:
 		x := fr.val(i.X)
@@ -841,8 +844,10 @@ func (fr *Frame) execConvert(i *ssa.Convert) {
 		fr.set(i, fr.mkVal(sx("to_real", x.T), i.Type()))
 	case fok && tok && fb.Info()&types.IsFloat != 0 && tb.Info()&types.IsInteger != 0:
 		// truncation toward zero; out-of-range is implementation-defined: abstract + range
+		// (only the non-negative in-range case is pinned: to_int is floor, Go truncates toward zero)
 		v := fr.freshVal("f2i", i.Type())
-		vc.assume(fr.reach, imp(and(sx("<=", "0.0", x.T), sx("<", x.T, "9223372036854775807.0")), eq(v.T, sx("to_int", x.T))))
+		_, h := intRange(tb)
+		vc.assume(fr.reach, imp(and(sx("<=", "0.0", x.T), sx("<", x.T, sx("+", Term(string(h)+".0"), "1.0"))), eq(v.T, sx("to_int", x.T))))
 		fr.set(i, v)
 	case fok && tok && fb.Info()&types.IsFloat != 0 && tb.Info()&types.IsFloat != 0:
 		fr.set(i, fr.mkVal(x.T, i.Type()))
